@@ -274,7 +274,26 @@ func runScenario(sc Scn) Res {
 		br := bytes.NewReader(full)
 		_, _ = br.Seek(int64(sc.Prefix), io.SeekStart)
 		src = io.LimitReader(br, int64(len(stream)))
+	case "devzero", "devurandom":
+		// an *os.File backed by a character device: endless, Stat().Size() == 0, Seek "succeeds"
+		f, err := os.Open(map[string]string{"devzero": "/dev/zero", "devurandom": "/dev/urandom"}[sc.Source])
+		if err == nil {
+			src = f
+			closeSrc = func() { f.Close() }
+		}
+	case "pipe":
+		// an *os.File that is a pipe: not seekable, size 0, delivers what the writer has written so far
+		pr, pw, err := os.Pipe()
+		if err == nil {
+			go func() {
+				_, _ = pw.Write(full[sc.Prefix:])
+				pw.Close()
+			}()
+			src = pr
+			closeSrc = func() { pr.Close() }
+		}
 	}
+	devSource := sc.Source == "devzero" || sc.Source == "devurandom"
 	if closeSrc != nil {
 		defer closeSrc()
 	}
@@ -362,10 +381,16 @@ func runScenario(sc Scn) Res {
 	}
 	if sc.Fault == nil {
 		probs, chunkOf := mon.CheckHistory(js, stream, w.B, w.S, w.Items, !w.Fast)
+		if devSource {
+			probs = nil // the bytes come from the device, not from the prepared stream
+			if len(js) != w.S {
+				probs = append(probs, fmt.Sprintf("%d samples judged, expected %d", len(js), w.S))
+			}
+		}
 		res.Problems = probs
 		res.Sig = mon.ScheduleSignature(js, chunkOf)
 		rows := make([][]mon.Cell, 0, len(js))
-		if sc.Stub && sc.Stream.Kind == "matrix" {
+		if sc.Stub && sc.Stream.Kind == "matrix" && !devSource {
 			rows = sc.Stream.Matrix // ground truth
 		} else {
 			for _, j := range js {
